@@ -330,7 +330,7 @@ func c10Gen(t *rapid.T) c10Case {
 			LayoutWrapper: rapid.SampledFrom([]string{"legacy", "dsse"}).Draw(t, "lw"), Intermediate: rapid.SampledFrom([]string{"layout", "caller"}).Draw(t, "inter"), Repeats: 1,
 			MultiValued: rapid.Bool().Draw(t, "multivalued"), ExplicitRoots: rapid.Bool().Draw(t, "explicitroots"), SecondFirst: rapid.Bool().Draw(t, "secondfirst")}
 		pool := []string{"honest-key:" + c02A1 + ":legacy", "honest-key:" + c02A2 + ":dsse", "honest-key:" + c02A3 + ":legacy", "honest-cert:leaf1", "honest-cert:leaf2",
-			"dup-cert:leaf1", "dup-key:" + c02A1, "bad-cert:leaf-expired", "unauthorised-key", "multisig:" + c02A2 + "+" + c02A1}
+			"dup-cert:leaf1", "dup-cert-other:leaf1", "dup-cert-other:leaf1", "dup-key:" + c02A1, "bad-cert:leaf-expired", "unauthorised-key", "multisig:" + c02A2 + "+" + c02A1}
 		c.Mixed.Kinds = rapid.SliceOfNDistinct(rapid.SampledFrom(pool), 2, 5, rapid.ID[string]).Draw(t, "kinds")
 		n := rapid.IntRange(2, 4).Draw(t, "ncalls")
 		for i := 0; i < n; i++ {
